@@ -279,17 +279,14 @@ Theorem c02_log_wrappers_transparent : forall evs w c b,
 Proof. exact lw_transparent. Qed.
 Print Assumptions c02_log_wrappers_transparent.
 
-(* FINDING (replayed on a real started server by the correspondence, class breaker-swallows-nil-panic): one
-   `recover() != nil` test is left on the path of a unary call -- googleBreaker.doReq, run by the breaker interceptor
-   INSIDE the crash interceptor.  With ServerConfig.Timeout = 0 (no timeout interceptor in between) a handler's
-   panic(nil) is swallowed there and the server answers OK with an empty message instead of Internal; every other
-   value, and nil behind the timeout interceptor, gives Internal.  Computed on the faithful model: *)
-Theorem c02_rpc_server_nil_panic_refuted :
-  rpc_server_direct (HPanics PVNil) = RResult None codeOK /\
-  rpc_direct true (HPanics PVNil) = RResult None codeInternal /\
-  (forall v, v <> PVNil -> rpc_server_direct (HPanics v) = RResult None codeInternal).
-Proof. split; [reflexivity|]. split; [reflexivity|]. intros v Hv. destruct v; try contradiction; reflexivity. Qed.
-Print Assumptions c02_rpc_server_nil_panic_refuted.
+(* The assembled chain of a started server without the timeout interceptor (ServerConfig.Timeout = 0): the breaker
+   interceptor sits inside the crash interceptor and lets every panic through (the former finding D17 -- it swallowed
+   panic(nil) -- repaired by 9a9266d), so a panicking handler is answered Internal whatever the value. *)
+Theorem c02_rpc_server_panic_is_internal : forall v,
+  rpc_server_direct (HPanics v) = RResult None codeInternal /\
+  rpc_server_direct (HPanics v) = rpc_direct true (HPanics v).
+Proof. intro v. split; reflexivity. Qed.
+Print Assumptions c02_rpc_server_panic_is_internal.
 
 (* ------------------------------------------------------------------ chain order, from the generated lists *)
 Theorem c02_chain_order :
